@@ -147,6 +147,8 @@ FORMULAS = [
     '\\mathcal A', '\\mathbf{AB}', '\\mbox{A B}', '\\textrm{A}', '\\left(A\\right)', 'A<B', 'A>B', 'A\\le B', '\\sum_{A=1}^{B}C',
     'A^\\pi B', '\\frac\\alpha\\beta A', '\\sqrt[A]\\pi B', '\\left\\langle A\\right\\rangle B', 'A_\\alpha\\beta', '\\mathcal\\alpha A',
     "A'", "A''+B'", "A'^B", 'A--B', "{A'}", "{A}'_{B''}",
+    '\\begin{array}{cc}A&B\\\\C&D\\end{array}', '\\begin{array}{|c|}\\hline A\\\\\\hline\\end{array}', '\\begin{array}{c}A\\\\ \\hline B\\\\ \\cline{1-1}\\end{array}',
+    '\\left(\\begin{array}{c}A\\\\B\\end{array}\\right)', '\\begin{array}{c}A\\\\ \\\\ \\hline B\\end{array}',
     'A_\\ua', 'A^\\uR', '\\frac\\ua\\uh', '\\sqrt\\uh', '\\uR^A', 'A^{\\uR}', '\\ua A',
 ]
 ENVS = [('$', '$'), ('\\(', '\\)'), ('\\[', '\\]'), ('\\begin{equation}', '\\end{equation}'), ('\\begin{eqnarray}', '\\end{eqnarray}')]
